@@ -462,4 +462,60 @@ theorem C05_derva_slice_s_le (v : View) (a : Addr) (size align sentinel : Nat)
   obtain ⟨hA, hB, -⟩ := C05_derva_slice_s v a size align sentinel h1 s hat
   exact ⟨hA, C05_derva_slice_s_complete v a size align sentinel h1 s hat, hB⟩
 
+/-! ### second audit round: `NoWrap` — instances for both formats and both kinds, and what fails without it -/
+
+/-- the PE32+ image of `demo64File` handed to `PeView::from_bytes` (the constructors do not look at the
+section contents: the same bytes are accepted as a mapped image of 256 of its declared 288 bytes) -/
+def demo64View : View := ⟨demo64Img, .pe64, .view, 0x140000000⟩
+/-- `twoSecPe32` (Lemmas/PeHdr.lean) as a PE32 file view -/
+def twoSec32File : View := ⟨⟨twoSecPe32, 0⟩, .pe32, .file, 0x400000⟩
+
+/-- hypotheses of `C05_rva_va_rva`, `C05_va_rva_va`, `C05_read_eq_slice(_pow2)` on a PE32+ FILE, a PE32+
+mapped VIEW and a PE32 FILE (the PE32 view is the example above), with the identities they give -/
+example :
+    (fromBytes .pe64 .file demo64Img = .ok demo64File ∧ demo64File.NoWrap ∧ 260 < sizeOfImage demo64File.b ∧
+      demo64File.rvaToVa 260 = .ok 0x140000104 ∧ demo64File.vaToRva 0x140000104 = .ok 260 ∧
+      demo64File.read 0x140000104 2 2 = .ok ⟨244, 12, 2⟩ ∧ demo64File.slice 260 2 2 = .ok ⟨244, 12, 2⟩) ∧
+    (fromBytes .pe64 .view demo64Img = .ok demo64View ∧ demo64View.NoWrap ∧ 240 < sizeOfImage demo64View.b ∧
+      demo64View.rvaToVa 240 = .ok 0x1400000f0 ∧ demo64View.vaToRva 0x1400000f0 = .ok 240 ∧
+      demo64View.read 0x1400000f0 8 8 = .ok ⟨240, 16, 8⟩ ∧ demo64View.slice 240 8 8 = .ok ⟨240, 16, 8⟩) ∧
+    (fromBytes .pe32 .file ⟨twoSecPe32, 0⟩ = .ok twoSec32File ∧ twoSec32File.NoWrap ∧
+      288 < sizeOfImage twoSec32File.b ∧
+      twoSec32File.rvaToVa 288 = .ok 0x400120 ∧ twoSec32File.vaToRva 0x400120 = .ok 288 ∧
+      twoSec32File.read 0x400120 2 2 = .ok ⟨284, 4, 2⟩ ∧ twoSec32File.slice 288 2 2 = .ok ⟨284, 4, 2⟩) := by
+  refine ⟨⟨demo64File_ok, ?_⟩, ⟨(fromBytes_ok_iff _ _ _ _).2 ⟨by decide +kernel,
+      by rw [show imageBaseField .pe64 demo64Img.bytes = 0x140000000 by decide +kernel]; rfl⟩, ?_⟩,
+    ⟨(fromBytes_ok_iff _ _ _ _).2 ⟨by decide +kernel,
+      by rw [show imageBaseField .pe32 twoSecPe32 = 0x400000 by decide +kernel]; rfl⟩, ?_⟩⟩ <;>
+  · unfold View.NoWrap
+    decide +kernel
+
+/-- **`NoWrap` is necessary** (PE32).  The PE32 view relocated with `set_base_address(0xffffff80)`:
+`base + SizeOfImage` exceeds the 32-bit address space.  For the rva 184 (inside the image, beyond the wrap)
+`rva_to_va` answers `Overflow` (`checked_add`), the wrapped address `base + 184 mod 2^32 = 0x38` is `Bounds`
+for `va_to_rva` and for `read`, while `slice 184` succeeds: the conclusions of `C05_rva_va_rva` and
+`C05_read_eq_slice` fail.  Below the wrap (rva 100) they still hold.  The real code answers the same
+(`r2v v32@0xffffff80 184` = `err Overflow`, `read v32@0xffffff80 0x38 0 1` = `err Bounds`). -/
+theorem C05_rva_va_rva_wrap_false :
+    let v := demoView.setBase 0xffffff80
+    ¬ v.NoWrap ∧ 0 < 184 ∧ 184 < sizeOfImage v.b ∧
+    v.rvaToVa 184 = .err .overflow ∧ v.vaToRva 0x38 = .err .bounds ∧
+    v.slice 184 0 1 = .ok ⟨184, 16, 1⟩ ∧ v.read 0x38 0 1 = .err .bounds ∧
+    v.rvaToVa 100 = .ok 0xffffffe4 ∧ v.vaToRva 0xffffffe4 = .ok 100 ∧
+    v.read 0xffffffe4 0 1 = v.slice 100 0 1 := by
+  intro v
+  unfold View.NoWrap
+  decide +kernel
+
+/-- the same for PE32+: `set_base_address(0xffffffffffffff00)` on the PE32+ view; rva 256 sits exactly at
+the wrap (`base + 256 = 2^64`) -/
+theorem C05_rva_va_rva_wrap_false_64 :
+    let v := demo64View.setBase 0xffffffffffffff00
+    ¬ v.NoWrap ∧ 0 < 256 ∧ 256 < sizeOfImage v.b ∧
+    v.rvaToVa 256 = .err .overflow ∧ v.rvaToVa 255 = .ok 0xffffffffffffffff ∧
+    v.vaToRva 0xffffffffffffffff = .ok 255 := by
+  intro v
+  unfold View.NoWrap
+  decide +kernel
+
 end Pelite.Pe
